@@ -205,12 +205,12 @@ def lexer_next(F, res):
            ok_range, where=nx.loc(), how="def-use traced" if ok_range else "range does not originate in inner.span()")
 
 
-def parse_module_rules(F, res):
+def parse_module_rules(F, res, rule="L3"):
     pm = F.fn("syntax::parser::parse_module")
     d = FL.Defs(pm)
     lit = [s for b, i, s in pm.stmts() if s.get("rv", {}).get("k") == "agg" and s["rv"].get("adt") == PM.PA]
     if len(lit) != 1:
-        res.anchor_missing("L3", "Parser literal in parse_module")
+        res.anchor_missing(rule, "Parser literal in parse_module")
         return
     rv = lit[0]["rv"]
     names = rv["fields"]
@@ -230,13 +230,13 @@ def parse_module_rules(F, res):
         return out, o
     ch_raw, src_raw = chain(rv["ops"][names.index("tokens_raw")])
     ok_raw = [PM.short(c) for c in ch_raw] == ["Iterator::collect", "GleamLexer::new"] and src_raw.get("k") == "arg"
-    res.ob("L3", "tokens_raw", "tokens_raw = GleamLexer::new(src).collect() (every lexed token, nothing else)",
+    res.ob(rule, "tokens_raw", "tokens_raw = GleamLexer::new(src).collect() (every lexed token, nothing else)",
            ok_raw, where=pm.loc(), how="chain %s from %s" % ([PM.short(c) for c in ch_raw], src_raw.get("k")))
     ch_tok, src_tok = chain(rv["ops"][names.index("tokens")])
     sh = [PM.short(c) for c in ch_tok]
     ok_tok = sh[:4] == ["Iterator::collect", "Iterator::filter", "IntoIterator::into_iter", "Clone::clone"] and \
         sh[4:] == ["Iterator::collect", "GleamLexer::new"]
-    res.ob("L3", "tokens-filtered-copy", "tokens = tokens_raw.clone().into_iter().filter(pred).collect()",
+    res.ob(rule, "tokens-filtered-copy", "tokens = tokens_raw.clone().into_iter().filter(pred).collect()",
            ok_tok, where=pm.loc(), how="chain %s" % sh)
     # the filter predicate is exactly !kind.is_trivia()
     clos = [F.fns[c] for c in F.closures_of(pm.path)]
@@ -252,14 +252,14 @@ def parse_module_rules(F, res):
                 ao = dd.origin_op(o["t"]["args"][0])
                 arg_ok = ao.get("k") == "field" and ao["proj"][-1].get("n") == "kind"
             ok_pred = arg_ok
-    res.ob("L3", "filter-is-not-trivia", "the filter predicate is `!t.kind.is_trivia()`", ok_pred and len(clos) == 1,
+    res.ob(rule, "filter-is-not-trivia", "the filter predicate is `!t.kind.is_trivia()`", ok_pred and len(clos) == 1,
            where=pm.loc(), how="%d closure(s) in parse_module" % len(clos))
     for fld, want in (("pos", ("const", "0")), ("events", ("call", "Vec::new")), ("errors", ("call", "Vec::new"))):
         o = d.origin_op(rv["ops"][names.index(fld)])
         got = (o.get("k"), str(o["c"].get("bits")) if o.get("k") == "const" else PM.short(callee(o["t"])) if o.get("k") == "call" else None)
-        res.ob("L3", "init-" + fld, "the parser starts with %s = %s" % (fld, want[1]), got == want, where=pm.loc(), how="found %s" % (got,))
+        res.ob(rule, "init-" + fld, "the parser starts with %s = %s" % (fld, want[1]), got == want, where=pm.loc(), how="found %s" % (got,))
     so = d.origin_op(rv["ops"][names.index("src")])
-    res.ob("L3", "init-src", "Parser.src is parse_module's own src parameter", so.get("k") == "arg" and so["n"] == 1, where=pm.loc(), how=str(so.get("k")))
+    res.ob(rule, "init-src", "Parser.src is parse_module's own src parameter", so.get("k") == "arg" and so["n"] == 1, where=pm.loc(), how=str(so.get("k")))
     # module(&mut p) then build_tree(p) on the same parser
     order = [(b, callee(t)) for b, t in pm.calls() if callee(t) in ("syntax::parser::module", BT)]
     ok_order = [c for _, c in order] == ["syntax::parser::module", BT] and pm.dominates(order[0][0], order[1][0])
@@ -269,7 +269,7 @@ def parse_module_rules(F, res):
         o1 = d.origin_op([t for b, t in pm.calls() if callee(t) == "syntax::parser::module"][0]["args"][0])
         o2 = d.origin_op([t for b, t in pm.calls() if callee(t) == BT][0]["args"][0])
         same = o1.get("l") == plocal and o2.get("l") == plocal
-    res.ob("L3", "module-then-build_tree", "parse_module runs module(&mut p) and then p.build_tree() on the same parser",
+    res.ob(rule, "module-then-build_tree", "parse_module runs module(&mut p) and then p.build_tree() on the same parser",
            ok_order and same, where=pm.loc(), how="calls %s, same parser local: %s" % ([c.rsplit("::", 1)[-1] for _, c in order], same))
 
 
@@ -494,8 +494,8 @@ def run(F, res, tier):
     lexer_rules(F, res)
     lexer_next(F, res)
     parse_module_rules(F, res)
-    PM.check_field_writers(F, res, "L4")
-    PM.check_model(F, res, "L4m")
+    PM.check_field_writers(F, res, "L4", with_fuel=False)
+    PM.check_model(F, res, "L4m", with_fuel=False)
     module_rules(F, res)
     build_tree_rules(F, res)
     # Advance count = |N|: bump is the only producer and the only mover (L4), and every bump is preceded by !eof (C02/P1)
